@@ -34,6 +34,7 @@ from hypothesis import given, settings, seed as hseed, strategies as st, HealthC
 
 from vf import REPO, VERIF
 from vf.runner import Collector, canon, case_hash
+from vf.model import udf_norm
 
 ID = 'C20'
 LEVEL = 'exploration'
@@ -1247,6 +1248,9 @@ def compare_view(case, a, v, got, fail, col):
         g = got[p]
         mask = (8, 64) if boot and boot.get('info_table') and p == boot['file'] else None
         if node_eq(node, g, mask):
+            continue
+        if v == 'udf' and kind == 'symlink' and g[0] == 'symlink' and udf_norm(g[1]) == udf_norm(node[1]):
+            # ECMA-167 path components cannot carry a doubled or a trailing slash: 'sub/' comes back as 'sub', which leads to the same place
             continue
         if g[0] != kind:
             fail('C20/%s/kind-mismatch/%s-as-%s' % (v, kind, g[0]), 'same relative paths',
